@@ -149,6 +149,21 @@ def run_round(case):
         if r.get('limit') is not None and (r['limit'] or 10 ** 12) != want_limit:
             problems.append('client %d negotiated limit %r, expected %r' % (i, r.get('limit'), want_limit))
         stored_all += r.get('stored', [])
+        # the file handed to the handler says which transfer syntax ITS association negotiated
+        import io
+        import pydicom
+        from pydicom import uid as _u
+        want_ts = [_u.ImplicitVRLittleEndian, _u.ExplicitVRLittleEndian, _u.ExplicitVRBigEndian][case['plans'][i]['ts']]
+        for s_ in r.get('stored', []):
+            for _, _, c in received:
+                if c.endswith(s_):
+                    try:
+                        got_ts = pydicom.dcmread(io.BytesIO(c), stop_before_pixels=True).file_meta.TransferSyntaxUID
+                    except Exception as e:  # pylint: disable=broad-except
+                        problems.append('client %d: the file handed to the handler is not readable: %r' % (i, e)); break
+                    if got_ts != want_ts:
+                        problems.append('client %d negotiated %s; the file of its instance is labelled %s' % (i, want_ts, got_ts))
+                    break
     got_payloads = [c for _, _, c in received]
     for s_ in stored_all:
         if not any(c.endswith(s_) for c in got_payloads):
